@@ -420,13 +420,15 @@ func (s *refSys) NumOps() int         { return len(s.ops) }
 func (s *refSys) OpName(i int) string { return s.ops[i].name }
 func (s *refSys) New() E2Inst {
 	b := s.base.mk()
-	return &refInst{sys: s, base: b, b: b.Refine(), m: newRefModel(b)}
+	return &refInst{sys: s, base: b, baseStr: goStr(b), b: b.Refine(), m: newRefModel(b)}
 }
 
 type refInst struct {
 	sys  *refSys
 	base cty.Value
-	b    *cty.RefinementBuilder
+	// baseStr: the value being refined as it printed before the builder existed
+	baseStr string
+	b       *cty.RefinementBuilder
 	m    *refModel
 	dead bool
 	last cty.Value
@@ -448,6 +450,13 @@ func (in *refInst) Apply(op int, check bool, report func(site, shape, detail str
 		o.apply(in.b)
 		return false
 	}()
+	if check {
+		// refinement makes a new value; the value it started from keeps the range its own
+		// constraints imply, whatever is done with the builder
+		if now := goStr(in.base); now != in.baseStr {
+			report("base-value-changed", in.sys.base.name+" / "+opKind(o.name), fmt.Sprintf("%s on a builder obtained from %s changed that value itself: it now prints %s", o.name, in.baseStr, now))
+		}
+	}
 	nm := in.m.clone()
 	violKnown := o.model(nm)
 	mustReject := violKnown || nm.empty()
